@@ -499,6 +499,171 @@ write_open_case(long idx, void *ctx)
     mc_count("write_open_cases", 1);
 }
 
+/* third family: one object of a given storage kind in a file of its own; the file is opened for WRITING, the object is only
+   read (not at all / in part / with a backward step / completely), everything is closed; the object must then read back with
+   the values stored, and the file must be well-formed */
+#define WPATH "/vmem/c14w.hdf"
+#define WEXT "/vmem/c14w.ext"
+#define NWKIND 13
+#define NWPAT 6
+static const char *WKIND[NWKIND] = {"SDS plain",   "SDS RLE",      "SDS deflate",         "SDS skipping-Huffman", "SDS n-bit",   "SDS chunked", "SDS chunked+deflate",
+                                    "SDS unlimited", "SDS external", "image plain",         "image RLE",            "image deflate", "image chunked"};
+static const char *WPAT[NWPAT]   = {"selected and released only", "the first 10 values read", "rows 15-16 read", "the last row read", "row 30 read, then row 2", "read completely"};
+static void
+write_session_case(long idx, void *ctx)
+{
+    (void)ctx;
+    int kind = (int)(idx % NWKIND), pat = (int)(idx / NWKIND % NWPAT), mode = (int)(idx / (NWKIND * NWPAT));
+    int cfg[4] = {-2, kind, pat, mode};
+    mc_set_config(cfg, 4, "write-mode session that only reads");
+    mc_set_case("%s (40 x 250 bytes), file opened with %s, %s, closed", WKIND[kind], kind < 9 ? "SDstart(DFACC_RDWR)" : mode ? "Hopen(DFACC_WRITE)" : "Hopen(DFACC_RDWR)", WPAT[pat]);
+    static uint8 v[40 * 250], back[40 * 250 + 8];
+    for (int i = 0; i < 40 * 250; i++)
+        v[i] = (uint8)(kind == 4 ? ((i / 3 + i / 250) & 0x3F) : (i / 7 + (i % 13 == 0 ? i : 0))); /* runs and noise */
+    vfs_remove_file(WPATH);
+    vfs_remove_file(WEXT);
+    int32     dm[2] = {40, 250}, st0[2] = {0, 0};
+    comp_info ci;
+    memset(&ci, 0, sizeof ci);
+    int ok = 1;
+    if (kind < 9) {
+        int32 S = SDstart(WPATH, DFACC_CREATE), udm[2] = {kind == 7 ? SD_UNLIMITED : 40, 250};
+        int32 s = SDcreate(S, "w", DFNT_UINT8, 2, udm);
+        HDF_CHUNK_DEF cd;
+        memset(&cd, 0, sizeof cd);
+        switch (kind) {
+            case 1: ok = SDsetcompress(s, COMP_CODE_RLE, &ci) != FAIL; break;
+            case 2:
+                ci.deflate.level = 6;
+                ok               = SDsetcompress(s, COMP_CODE_DEFLATE, &ci) != FAIL;
+                break;
+            case 3:
+                ci.skphuff.skp_size = 1;
+                ok                  = SDsetcompress(s, COMP_CODE_SKPHUFF, &ci) != FAIL;
+                break;
+            case 4: ok = SDsetnbitdataset(s, 5, 6, 0, 0) != FAIL; break;
+            case 5:
+                cd.chunk_lengths[0] = 7, cd.chunk_lengths[1] = 64;
+                ok                  = SDsetchunk(s, cd, HDF_CHUNK) != FAIL;
+                break;
+            case 6:
+                cd.comp.chunk_lengths[0] = 7, cd.comp.chunk_lengths[1] = 64;
+                cd.comp.comp_type           = COMP_CODE_DEFLATE;
+                cd.comp.cinfo.deflate.level = 6;
+                ok                          = SDsetchunk(s, cd, HDF_CHUNK | HDF_COMP) != FAIL;
+                break;
+            case 8: ok = SDsetexternalfile(s, WEXT, 0) != FAIL; break;
+        }
+        if (S == FAIL || s == FAIL || !ok || SDwritedata(s, st0, NULL, dm, v) == FAIL || SDendaccess(s) == FAIL || SDend(S) == FAIL) {
+            mc_harness_error("cannot build the %s file", WKIND[kind]);
+            return;
+        }
+    }
+    else {
+        int32 f = Hopen(WPATH, DFACC_CREATE, 0), G = GRstart(f), gd[2] = {250, 40}; /* GR: x (fastest) first */
+        int32 r = GRcreate(G, "w", 1, DFNT_UINT8, MFGR_INTERLACE_PIXEL, gd);
+        HDF_CHUNK_DEF cd;
+        memset(&cd, 0, sizeof cd);
+        switch (kind) {
+            case 10: ok = GRsetcompress(r, COMP_CODE_RLE, &ci) != FAIL; break;
+            case 11:
+                ci.deflate.level = 6;
+                ok               = GRsetcompress(r, COMP_CODE_DEFLATE, &ci) != FAIL;
+                break;
+            case 12:
+                cd.chunk_lengths[0] = 50, cd.chunk_lengths[1] = 8;
+                ok                  = GRsetchunk(r, cd, HDF_CHUNK) != FAIL;
+                break;
+        }
+        if (f == FAIL || r == FAIL || !ok || GRwriteimage(r, st0, NULL, gd, v) == FAIL || GRendaccess(r) == FAIL || GRend(G) == FAIL || Hclose(f) == FAIL) {
+            mc_harness_error("cannot build the %s file", WKIND[kind]);
+            return;
+        }
+    }
+    uint64_t ext0 = kind == 8 ? vfs_hash_file(vfs_lookup(WEXT)) : 0;
+    /* the session: open for writing, read only */
+    static const int32 PST[NWPAT][2][2] = {{{0, 0}, {0, 0}}, {{0, 0}, {0, 0}}, {{15, 0}, {0, 0}}, {{39, 0}, {0, 0}}, {{30, 0}, {2, 0}}, {{0, 0}, {0, 0}}};
+    static const int32 PCN[NWPAT][2][2] = {{{0, 0}, {0, 0}}, {{1, 10}, {0, 0}}, {{2, 250}, {0, 0}}, {{1, 250}, {0, 0}}, {{1, 250}, {1, 250}}, {{40, 250}, {0, 0}}};
+    if (kind < 9) {
+        int32 S = SDstart(WPATH, DFACC_RDWR), s = S == FAIL ? FAIL : SDselect(S, 0);
+        if (s == FAIL) {
+            mc_violation("wsession:open", "SDstart(DFACC_RDWR)/SDselect failed");
+            return;
+        }
+        for (int q = 0; q < 2; q++)
+            if (PCN[pat][q][0]) {
+                int32 a[2] = {PST[pat][q][0], PST[pat][q][1]}, c[2] = {PCN[pat][q][0], PCN[pat][q][1]};
+                memset(back, 0xEE, sizeof back);
+                if (SDreaddata(s, a, NULL, c, back) == FAIL || memcmp(back, v + a[0] * 250 + a[1], (size_t)(c[0] * c[1])))
+                    mc_violation("wsession:read", "%s: the read inside the write-mode session fails or returns other values than stored", WKIND[kind]);
+            }
+        if (SDendaccess(s) == FAIL || SDend(S) == FAIL) {
+            mc_violation("wsession:close", "SDendaccess/SDend failed");
+            return;
+        }
+    }
+    else {
+        int32 f = Hopen(WPATH, mode ? DFACC_WRITE : DFACC_RDWR, 0), G = f == FAIL ? FAIL : GRstart(f), r = G == FAIL ? FAIL : GRselect(G, 0);
+        if (r == FAIL) {
+            mc_violation("wsession:open", "Hopen for writing/GRstart/GRselect failed");
+            return;
+        }
+        for (int q = 0; q < 2; q++)
+            if (PCN[pat][q][0]) {
+                int32 a[2] = {PST[pat][q][1], PST[pat][q][0]}, c[2] = {PCN[pat][q][1], PCN[pat][q][0]}; /* x first */
+                memset(back, 0xEE, sizeof back);
+                if (GRreadimage(r, a, NULL, c, back) == FAIL || memcmp(back, v + a[1] * 250 + a[0], (size_t)(c[0] * c[1])))
+                    mc_violation("wsession:read", "%s: the read inside the write-mode session fails or returns other values than stored", WKIND[kind]);
+            }
+        if (GRendaccess(r) == FAIL || GRend(G) == FAIL || Hclose(f) == FAIL) {
+            mc_violation("wsession:close", "GRendaccess/GRend/Hclose failed");
+            return;
+        }
+    }
+    /* afterwards */
+    {
+        vfile  *vf = vfs_lookup(WPATH);
+        long    sz;
+        uint8  *bytes = vfs_dup_bytes(vf, &sz);
+        fc_file fc;
+        memset(&fc, 0, sizeof fc);
+        if (fc_parse(&fc, bytes, sz) != 0)
+            mc_violation("wsession:format", "file not well-formed after the session: %s", fc.err[0]);
+        fc_free(&fc);
+        free(bytes);
+    }
+    if (kind == 8 && vfs_hash_file(vfs_lookup(WEXT)) != ext0)
+        mc_violation("wsession:external-file-changed", "the external file changed although nothing was written");
+    memset(back, 0xEE, sizeof back);
+    int rc;
+    if (kind < 9) {
+        int32 S = SDstart(WPATH, DFACC_READ), s = S == FAIL ? FAIL : SDselect(S, 0);
+        rc      = s == FAIL ? FAIL : SDreaddata(s, st0, NULL, dm, back);
+        if (S != FAIL)
+            SDend(S);
+    }
+    else {
+        int32 f = Hopen(WPATH, DFACC_READ, 0), G = f == FAIL ? FAIL : GRstart(f), r = G == FAIL ? FAIL : GRselect(G, 0), gd[2] = {250, 40};
+        rc      = r == FAIL ? FAIL : GRreadimage(r, st0, NULL, gd, back);
+        if (G != FAIL)
+            GRend(G);
+        if (f != FAIL)
+            Hclose(f);
+    }
+    if (rc == FAIL || memcmp(back, v, sizeof v)) {
+        long first = 0;
+        while (rc != FAIL && first < (long)sizeof v && back[first] == v[first])
+            first++;
+        char sig[100];
+        snprintf(sig, sizeof sig, "wsession:content-changed:%s", kind < 9 ? "sds" : "image");
+        mc_violation(sig, "%s: after a write-mode session in which it was only read (%s) the object %s", WKIND[kind], WPAT[pat],
+                     rc == FAIL ? "cannot be read" : "reads back with other values than were stored");
+        (void)first;
+    }
+    mc_count("write_session_cases", 1);
+    mc_outcome(mc_hash_i(mc_hash_i(MC_H0, -2), idx));
+}
+
 int
 C14_main(const char *tier, const char *replay)
 {
@@ -533,6 +698,10 @@ C14_main(const char *tier, const char *replay)
             write_open_case(cfg[1], NULL);
             return 0;
         }
+        if (cfg[0] == -2 && ncfg >= 4) {
+            write_session_case(cfg[1] + (long)NWKIND * (cfg[2] + (long)NWPAT * cfg[3]), NULL);
+            return 0;
+        }
         g_mut_only = cfg[0];
         printf("replay C14: %d calls on read-only handles\n", nops);
         if (open_readonly())
@@ -551,6 +720,9 @@ C14_main(const char *tier, const char *replay)
     mc_round_end();
     mc_round_begin("write-mode open/close without edits");
     mc_foreach(6, write_open_case, NULL, 1, 120);
+    mc_round_end();
+    mc_round_begin("write-mode sessions that only read one object of every storage kind");
+    mc_foreach(2L * NWKIND * NWPAT, write_session_case, NULL, 1, 120);
     mc_round_end();
     mc_count("alphabet_calls", NCALLS);
     return 0;
